@@ -12,7 +12,7 @@ From Coq Require Import ZArith List Bool Sorting.Sorted.
 From RV Require Import Base.Wire Base.Text Lang.Escape Lang.Sections Proofs.EscapeP Proofs.SectionsP.
 From RV Require Import Lang.StmtAst Lang.Transl Lang.Scope Proofs.ScopeP.
 From RV Require Lang.Headers Proofs.HeadersP Lang.FnSelect Proofs.FnSelectP.
-From RV Require Lang.EmitScope Proofs.EmitScopeP.
+From RV Require Lang.EmitScope Proofs.EmitScopeP Lang.Globals Proofs.GlobalsP.
 Import ListNotations.
 Open Scope Z_scope.
 
@@ -412,3 +412,25 @@ Example C06_unwrapped_invert_breaks :
   ES.scan [[]] (snd (ES.emit_block ES.demo_state [ES.NMotorInvert; ES.NPlain; ES.NMotorInvert])) = Some [[]].
 Proof. exact EmitScopeP.unwrapped_invert_breaks. Qed.
 Print Assumptions C06_unwrapped_invert_breaks.
+
+(* ---------------------------------------------------------------- file-scope definitions of the device state *)
+
+(* emit() adds a global line only if the very same text is not there yet.  When every name is always offered with the same
+   initialiser (guard: a device name is not bound twice with different constructor arguments), no name is defined twice and
+   every offered line is there *)
+Theorem C06_globals_once_partial : forall ls : list Globals.gline,
+  Globals.consistent ls = true ->
+  NoDup (map fst (Globals.globals ls)) /\ (forall l, In l ls -> In l (Globals.globals ls)).
+Proof. exact (fun ls C => conj (GlobalsP.globals_nodup ls C) (GlobalsP.globals_complete ls C)). Qed.
+Print Assumptions C06_globals_once_partial.
+
+(* without the guard it is false:  arm = Servo(9) ; arm = Servo(10, min_angle=10)  offers  float __servo_min_angle_arm  twice
+   with different initialisers - both lines are kept (g++: redefinition) *)
+Theorem C06_globals_once_refuted : exists ls : list Globals.gline, ~ NoDup (map fst (Globals.globals ls)).
+Proof. exact GlobalsP.globals_refuted. Qed.
+Print Assumptions C06_globals_once_refuted.
+
+Example C06_globals_rebound_servo :
+  Globals.globals Globals.rebound_servo = [(1, 0); (2, 180); (1, 10)] /\ Globals.consistent Globals.rebound_servo = false.
+Proof. exact GlobalsP.rebound_servo_lines. Qed.
+Print Assumptions C06_globals_rebound_servo.
